@@ -181,6 +181,11 @@ def main(path):
         old = copy.deepcopy(state)
         pre = copy.deepcopy(state)
         bindings = dict(args)
+        for bk, bv in (model.get('bindings') or {}).items():       # ghost / skolem bindings of the contract (e.g. an arbitrary card)
+            try:
+                bindings.setdefault(bk, build(bv))
+            except Exception:     # noqa
+                pass
         bindings.update({'old': old, 's': state, 'K': K, 'a': a, 'integral': model.get('chips', 'int') == 'int',
                          'warnings_are_errors': warn_err})
         kind, meta = ob['kind'], ob['meta']
